@@ -1581,6 +1581,10 @@ class ReusableRandomGreedyOptimizer(ReusableOptimizer):
             objective=self.minimize,
         )
 
+        # n.b. an entry added with ``update_from_tree`` can be sliced
+        for ix in con["sliced_inds"]:
+            tree.remove_ind_(ix)
+
         return tree
 
 
